@@ -75,6 +75,50 @@ def run(prog, rep, tier, repo):
             rep.ok('lag-window', key, 'the lagged sum starts at |k| (%s)' % ', '.join(w for w, _, _ in found))
     rep.floor('lag-window', 2, 'acovf, acf')
 
+    # the same clause on exact witnesses: whatever way the summation range of acovf is written (from |k| up, or from 0 up to n - lag), it holds
+    # max(0, n - |k|) terms for every series length n and lag k -- none when |k| >= n
+    from ..precond import tev as _tev, Frame as _Frame, Uneval as _Uneval, _nk as _nk_, NC as _NC
+    f = prog.func(TF + 'acovf')
+    key = 'lag-count:acovf'
+    if f is not None:
+        rngs = []
+        for c in f.calls():
+            for a in c.args:
+                for z in subterms(a):
+                    if tag(z) == 'range' and z not in rngs:
+                        rngs.append(z)
+        karg = ('arg', 2, f.names.get(2))
+        rngs = [z for z in rngs if karg in list(subterms(z))]
+        if len(rngs) != 1:
+            rep.undecided('lag-count', key, '%d summation ranges depending on the lag' % len(rngs), site_of(f.body), proof=False)
+        else:
+            ncx_ = _NC(prog)
+            bad, used = None, 0
+            for n0 in (1, 2, 3, 5, 8):
+                for k0 in (-9, -5, -3, -1, 0, 1, 2, 4, 7, 8):
+                    env = {_nk_(('len', ('arg', 1, None))): n0, _nk_(('arg', 2, None)): k0}
+                    ctx = _Frame(f, env=env, ncx=ncx_)
+                    try:
+                        lo, hi = _tev(rngs[0][1], ctx), _tev(rngs[0][2], ctx)
+                    except _Uneval:
+                        continue
+                    used += 1
+                    cnt = max(0, hi - lo)
+                    want = max(0, n0 - abs(k0))
+                    if cnt != want:
+                        bad = (n0, k0, cnt, want, lo, hi)
+                        break
+                if bad:
+                    break
+            if bad:
+                rep.viol('lag-count', key, 'acovf of a series of length %d at lag %d sums over %s..%s = %d term(s); the biased estimator has %d (an empty sum, value 0, once '
+                         '|k| >= n)' % (bad[0], bad[1], bad[4], bad[5], bad[2], bad[3]), site_of(f.body))
+            elif used:
+                rep.ok('lag-count', key, 'the summation range holds max(0, n - |k|) terms on %d (n, k) witnesses' % used)
+            else:
+                rep.undecided('lag-count', key, 'range bounds not evaluated', site_of(f.body), proof=False)
+    rep.floor('lag-count', 1, 'acovf')
+
     # ------------------------------------------------------------------ D2 scale types + D5
     seeds = {('sym', 'DATA'): Ty(unit('X', 1))}
     forms = {}
